@@ -16,7 +16,7 @@ UNFIX_PROPS = {
     'pixel2world_world2pixel': ['C04'], 'SliceSubsetState_to_mask': ['C04'], 'join_component_view': ['C04'],
     'categorical_ndarray_codes': ['C04'], 'compute_statistic_with': ['C10'], 'compute_histogram_moved': ['C10'],
     'parsed_scalar_view': ['C14'], 'frb_numpy_scalar': ['C16'], 'removing_a_dataset': ['C06'], 'undo_of_AddData': ['C13'],
-    'undo_of_ApplySubsetState': ['C13'], 'restored_derived_link': ['C02'], 'rotated_rectangle_on_categorical': ['C09'], 'composite_loader_keeps': ['C02'],
+    'undo_of_ApplySubsetState': ['C13'], 'restored_derived_link': ['C02'], 'rotated_rectangle_on_categorical': ['C09'], 'composite_loader_keeps': ['C02'], 'world_component_array_views': ['C04'],
 }
 
 
